@@ -69,8 +69,16 @@ def writer_mcs(tier):
     return out
 
 
+def mc_bitreader(e, strict, pat=3):
+    return dict(name="bitreader_%s_%s_p%d" % (e, "strict" if strict else "inf", pat), module="MC_BitReader", workers=4, timeout=3600,
+                cfg_text='SPECIFICATION Spec\nCONSTANTS E = "%s"\n Strict = %s\n Pat = %d\n NW = 3\n Data <- DataConst\n'
+                         'INVARIANT Refines\nCHECK_DEADLOCK FALSE\n' % (e, "TRUE" if strict else "FALSE", pat))
+
+
 def reader_mcs(tier):
-    out = []
+    out = [mc_bitreader(e, st) for e in ("be", "le") for st in (False, True)]
+    if tier == "thorough":
+        out += [mc_bitreader(e, st, p) for e in ("be", "le") for st in (False, True) for p in (1, 2)]
     for e in ("be", "le"):
         for strict in (False, True):
             out.append(mc_reader(8, e, strict, 4, 1, True, live=True))
@@ -101,8 +109,7 @@ def pick_cfgs(n, k, seed):
 def c01(tier, seed):
     q = tier == "quick"
     units = cfg_shards("wstates", "wstates", NW, seed,
-                       dict(paths=os.path.join(GEN, "writer_paths.ndjson"), ops="c01", full=0 if q else 1),
-                       pick=pick_cfgs(NW, 10, seed) if q else None)
+                       dict(paths=os.path.join(GEN, "writer_paths.ndjson"), ops="c01", full=0 if q else 1))
     units += shards("hist", "hist", 6 if q else 32, seed, dict(histories=5 if q else 20, len=40))
     units += shards("wfull", "wfull", 2 if q else 8, seed, dict(rounds=6 if q else 30))
     return dict(
@@ -119,10 +126,13 @@ def c01(tier, seed):
 
 def c02(tier, seed):
     q = tier == "quick"
-    units = cfg_shards("rstates", "rstates", NR, seed,
-                       dict(paths=os.path.join(GEN, "reader_paths.ndjson"), ops="c02", full=0 if q else 1,
-                            images=2 if q else 4),
-                       pick=pick_cfgs(NR, 12, seed) if q else None)
+    if q:
+        two = pick_cfgs(NR, 12, seed)
+        units = cfg_shards("rstates", "rstates", NR, seed, dict(paths=RP, ops="c02", full=0, images=2), pick=two)
+        units += cfg_shards("rstates", "rstates", NR, seed, dict(paths=RP, ops="c02", full=0, images=1),
+                            pick=set(range(NR)) - two)
+    else:
+        units = cfg_shards("rstates", "rstates", NR, seed, dict(paths=RP, ops="c02", full=1, images=4))
     units += shards("hist", "hist", 6 if q else 32, seed, dict(histories=5 if q else 20, len=40))
     return dict(
         needs_gen=True,
@@ -193,10 +203,20 @@ RP = os.path.join(GEN, "reader_paths.ndjson")
 WP = os.path.join(GEN, "writer_paths.ndjson")
 
 
+# reader configurations the tables driver works on (clonable and seekable: inf, strict, cursor backends)
+TABLE_CFGS = [i for i in range(NR) if (i % 28 < 24 and (i % 28) % 6 in (0, 1, 4)) or (i % 28 >= 24 and (i % 28) - 24 in (0, 1, 3))]
+
+
+def pick_from(lst, k, seed):
+    if k >= len(lst):
+        return set(lst)
+    return {lst[(seed * 5 + i * len(lst) // k) % len(lst)] for i in range(k)}
+
+
 def c05(tier, seed):
     q = tier == "quick"
     units = cfg_shards("tables", "tables", NR, seed, dict(full=0 if q else 1, frac=16 if q else 1),
-                       pick=pick_cfgs(NR, 12, seed) if q else None)
+                       pick=pick_from(TABLE_CFGS, 10, seed) if q else set(TABLE_CFGS))
     units += cfg_shards("eof", "eof", 14, seed + 3, dict(streams=1 if q else 4, len=16 if q else 40, cutstep=1),
                         pick=pick_cfgs(14, 7, seed) if q else None)   # fewer bits than the index width before a strict end
     units += cfg_shards("crossing", "crossing", 14, seed + 1, dict(), pick=pick_cfgs(14, 7, seed + 1) if q else None)
@@ -217,8 +237,12 @@ def c05(tier, seed):
 
 def c07(tier, seed):
     q = tier == "quick"
-    units = cfg_shards("seeks", "rstates", NR, seed, dict(paths=RP, ops="c07", full=0 if q else 1, images=2 if q else 3),
-                       pick=pick_cfgs(NR, 12, seed) if q else None)
+    if q:
+        two = pick_cfgs(NR, 12, seed)
+        units = cfg_shards("seeks", "rstates", NR, seed, dict(paths=RP, ops="c07", full=0, images=2), pick=two)
+        units += cfg_shards("seeks", "rstates", NR, seed, dict(paths=RP, ops="c07", full=0, images=1), pick=set(range(NR)) - two)
+    else:
+        units = cfg_shards("seeks", "rstates", NR, seed, dict(paths=RP, ops="c07", full=1, images=3))
     units += shards("hist", "hist", 6 if q else 24, seed + 3, dict(histories=5 if q else 20, len=40))
     units += code_units("offsets", tier, seed + 3, 8, 30)
     return dict(
@@ -236,7 +260,7 @@ def c07(tier, seed):
 def c08(tier, seed):
     q = tier == "quick"
     units = cfg_shards("copy", "copy", NR, seed, dict(rpaths=RP, wpaths=WP, full=0 if q else 1),
-                       pick=pick_cfgs(NR, 12, seed) if q else None)
+                       pick=pick_cfgs(NR, 20, seed) if q else None)
     if not q:
         units += cfg_shards("copy-nci", "copy", NR, seed + 1, dict(rpaths=RP, wpaths=WP, full=0),
                             variant=("release", "no_copy_impls"))
@@ -257,7 +281,7 @@ def c08(tier, seed):
 def c09(tier, seed):
     q = tier == "quick"
     units = cfg_shards("eof", "eof", 14, seed, dict(streams=2 if q else 8, len=16 if q else 40, cutstep=1))
-    units += cfg_shards("tables", "tables", NR, seed, dict(full=0, frac=64), pick=pick_cfgs(NR, 6, seed + 9))
+    units += cfg_shards("tables", "tables", NR, seed, dict(full=0, frac=64), pick=pick_from(TABLE_CFGS, 4, seed + 9))
     units += cfg_shards("crossing", "crossing", 14, seed, dict())
     return dict(
         needs_gen=True,
@@ -272,10 +296,8 @@ def c09(tier, seed):
 
 def c12(tier, seed):
     q = tier == "quick"
-    units = cfg_shards("iow", "wstates", NW, seed, dict(paths=WP, ops="c12", full=0 if q else 1),
-                       pick=pick_cfgs(NW, 12, seed) if q else None)
-    units += cfg_shards("ior", "rstates", NR, seed, dict(paths=RP, ops="c12", full=0 if q else 1, images=2 if q else 3),
-                        pick=pick_cfgs(NR, 12, seed) if q else None)
+    units = cfg_shards("iow", "wstates", NW, seed, dict(paths=WP, ops="c12", full=0 if q else 1))
+    units += cfg_shards("ior", "rstates", NR, seed, dict(paths=RP, ops="c12", full=0 if q else 1, images=2 if q else 3))
     units += shards("hist", "hist", 4 if q else 16, seed + 5, dict(histories=5 if q else 20, len=40))
     return dict(
         needs_gen=True,
